@@ -20,20 +20,20 @@ func fail(code int, f string, a ...interface{}) {
 func readJSON(path string, v interface{}) {
 	b, err := os.ReadFile(path)
 	if err != nil {
-		fail(2, "WORKER-TROUBLE read %s: %v", path, err)
+		fail(3, "WORKER-TROUBLE read %s: %v", path, err)
 	}
 	if err := json.Unmarshal(b, v); err != nil {
-		fail(2, "WORKER-TROUBLE parse %s: %v", path, err)
+		fail(3, "WORKER-TROUBLE parse %s: %v", path, err)
 	}
 }
 
 func writeJSON(path string, v interface{}) {
 	b, err := json.Marshal(v)
 	if err != nil {
-		fail(2, "WORKER-TROUBLE marshal: %v", err)
+		fail(3, "WORKER-TROUBLE marshal: %v", err)
 	}
 	if err := os.WriteFile(path, b, 0644); err != nil {
-		fail(2, "WORKER-TROUBLE write %s: %v", path, err)
+		fail(3, "WORKER-TROUBLE write %s: %v", path, err)
 	}
 }
 
@@ -49,13 +49,13 @@ func current() io.Reader {
 //	<bin> <mode> <in.json> <out.json>
 func Main(pre *dev.Dev) {
 	if len(os.Args) != 4 {
-		fail(2, "usage: %s c06|c09|hist in.json out.json", os.Args[0])
+		fail(3, "usage: %s c06|c09|hist in.json out.json", os.Args[0])
 	}
 	mode, in, out := os.Args[1], os.Args[2], os.Args[3]
 	if pre != nil {
 		// self-check of the pre-init seam: the library must have captured the device
 		if current() != io.Reader(pre) {
-			fail(2, "SEAM-FAILED: bip39 did not capture the pre-init device (package init order)")
+			fail(3, "SEAM-FAILED: bip39 did not capture the pre-init device (package init order)")
 		}
 	}
 	install := func() *dev.Dev {
@@ -86,13 +86,13 @@ func Main(pre *dev.Dev) {
 		switch p.Source {
 		case "hook":
 			if pre != nil {
-				fail(2, "WORKER-TROUBLE source=hook in a coldsim binary")
+				fail(3, "WORKER-TROUBLE source=hook in a coldsim binary")
 			}
 			d = install()
 			id = func() (bool, string) { return current() == io.Reader(d), "source is no longer the installed device" }
 		case "preinit":
 			if pre == nil {
-				fail(2, "WORKER-TROUBLE source=preinit needs the coldsim binary")
+				fail(3, "WORKER-TROUBLE source=preinit needs the coldsim binary")
 			}
 			d = pre
 			id = func() (bool, string) {
@@ -101,17 +101,17 @@ func Main(pre *dev.Dev) {
 			}
 		case "real":
 			if pre != nil {
-				fail(2, "WORKER-TROUBLE source=real in a coldsim binary")
+				fail(3, "WORKER-TROUBLE source=real in a coldsim binary")
 			}
 			id = func() (bool, string) {
 				c := current()
 				return c == rand.Reader, fmt.Sprintf("source is %T, not crypto/rand.Reader", c)
 			}
 		default:
-			fail(2, "WORKER-TROUBLE unknown source %q", p.Source)
+			fail(3, "WORKER-TROUBLE unknown source %q", p.Source)
 		}
 		writeJSON(out, RunHist(&p, d, id))
 	default:
-		fail(2, "WORKER-TROUBLE unknown mode %q", mode)
+		fail(3, "WORKER-TROUBLE unknown mode %q", mode)
 	}
 }
